@@ -92,7 +92,11 @@ class JSONField(ABC):
         d = json.loads(json_string)
         ret = cls()
         # we make constructing from JSON more forgiving to allow some limited
-        # forward compatibility, in case the fields change
+        # forward compatibility, in case the fields change; a field this version does
+        # not know is skipped whatever the type of its value
+        for k in [k for k in d if k not in ret.__dict__]:
+            fl.get_logger().warning(f"Unable to set field {k} of {cls.__name__}, no such field available")
+            d.pop(k)
         ret._set_fields(forgiving=True, **d)
         return ret
 
